@@ -198,8 +198,9 @@ class LymphNodeLevel(AbstractNode):
         if new_state == self.state:
             stay_prob = 1.0
             for edge in self.inc:
+                parent_state = 0 if edge.is_tumor_spread else edge.parent.state
                 edge_prob = edge.transition_tensor[
-                    edge.parent.state,
+                    parent_state,
                     self.state,
                     new_state,
                 ]
@@ -208,7 +209,8 @@ class LymphNodeLevel(AbstractNode):
 
         transition_prob = 0.0
         for edge in self.inc:
-            edge_prob = edge.transition_tensor[edge.parent.state, self.state, new_state]
+            parent_state = 0 if edge.is_tumor_spread else edge.parent.state
+            edge_prob = edge.transition_tensor[parent_state, self.state, new_state]
             transition_prob = 1.0 - (1.0 - transition_prob) * (1.0 - edge_prob)
 
         return transition_prob
